@@ -1,0 +1,4 @@
+/* -*- c -*- */
+#include "version.h"
+
+const char dateutils_version_string[] = "0.5.0.GIT";
